@@ -203,6 +203,16 @@ fn gen(a: &Args) {
     for t in ["\u{FEFF}", "\u{FEFF}x", "\u{FEFB}x", "\u{FEC0}", "\u{FEFF}\u{FEFF}", "x\u{FEFF}"] {
         writeln!(w, "fromstr {}", hex(t.as_bytes())).unwrap();
     }
+    // (2g) pairs that differ only in (ASCII or non-ASCII) case, or only by a permutation: `==` must tell them apart
+    writeln!(w, "case case-pairs").unwrap();
+    let pairs = [("a", "A"), ("Z", "z"), ("aB", "Ab"), ("\u{e9}", "\u{c9}"), ("ab", "ba"), ("aa", "bb"), ("straSSe", "strasse"), ("k", "\u{212a}"), ("ab", "a"), ("", "\u{0}")];
+    for (i, (x, y)) in pairs.iter().enumerate() {
+        writeln!(w, "fromstr {}", hex(x.as_bytes())).unwrap();
+        writeln!(w, "fromstr {}", hex(y.as_bytes())).unwrap();
+        writeln!(w, "cmp {} {}", 2 * i, 2 * i + 1).unwrap();
+        writeln!(w, "cmp {} {}", 2 * i + 1, 2 * i).unwrap();
+        writeln!(w, "cmp {} {}", 2 * i, 2 * i).unwrap();
+    }
     // (2d) Display with width / precision / fill / alignment agrees with str
     let mut n = 0;
     for s in ["", "a", "ab", "aéb", "€uro", "😀", "a😀é€b", "abcdefgh"] {
@@ -616,6 +626,23 @@ fn run(a: &Args) {
                         && a.clone().max(b.clone()) == *std::cmp::max(so, &**b) && a.clone().min(b.clone()) == *std::cmp::min(so, &**b);
                     if !ops_agree || o != want || st[x].partial_cmp(&st[y]) != Some(want) || (st[x] == st[y]) != (want == std::cmp::Ordering::Equal) {
                         rep.t3("C20", &format!("cmp of {} and {} differs from str", hex(st[x].as_bytes()), hex(st[y].as_bytes())));
+                    }
+                    // every `==` / `!=` the type offers agrees with `str == str`
+                    let eq = want == std::cmp::Ordering::Equal;
+                    let sb: &str = &st[y];
+                    let owned: String = sb.to_string();
+                    #[allow(clippy::op_ref)]
+                    let eqs = [*a == *b, *a == *sb, *a == sb, *a == owned, *a == &owned, !(*a != *b), !(*a != *sb), !(*a != owned), *a == std::borrow::Cow::Borrowed(sb), *a == owned.clone().into_boxed_str()];
+                    if eqs.iter().any(|e| *e != eq) {
+                        rep.t3("C20", &format!("`==` between {} and {} is {:?} for (ByteString, str, &str, String, &String, !=…, Cow, Box<str>) but the strs are {}", hex(a.as_bytes()), hex(b.as_bytes()), eqs, if eq { "equal" } else { "different" }));
+                    }
+                    // slices, vectors and tuples of ByteStrings drive a Hasher like the same collections of strs
+                    let (pa, pb): (&str, &str) = (so, sb);
+                    if trace(&[a.clone(), b.clone()][..]) != trace(&[pa, pb][..]) || trace(&vec![a.clone(), b.clone()]) != trace(&vec![pa, pb])
+                        || trace(&[a.clone(), b.clone()]) != trace(&[pa, pb]) || trace(&(a.clone(), b.clone())) != trace(&(pa, pb))
+                        || h(&[a.clone(), b.clone()][..]) != h(&[pa, pb][..])
+                    {
+                        rep.t3("C20", &format!("a slice / Vec / array / tuple of ByteStrings [{}, {}] hashes differently from the same collection of strs", hex(a.as_bytes()), hex(b.as_bytes())));
                     }
                     match o {
                         std::cmp::Ordering::Less => "lt".into(),
